@@ -96,3 +96,66 @@ Lemma example_text_xls :
 Proof.
   split; [repeat constructor|]. repeat split; vm_compute; reflexivity.
 Qed.
+
+(* ------------------------------------------------------------------------------------- *)
+(* C19 through a whole workbook (C12's reduced parse_workbook), for EVERY CodePage record the
+   globals may carry (any 16-bit value, or none): the code page has no say in BIFF8 (audit-2
+   finding XLS-1, repaired), so a sheet name and a text stored in any of the three forms — a LABEL
+   cell, a formula's STRING result under any legal fragmentation, a LABELSST cell into a shared
+   string table under any legal CONTINUE layout — read back as exactly that text. *)
+Lemma filter_nonzero_id : forall n : list N, Forall (fun c => c <> 0) n ->
+  filter (fun c => negb (c =? 0)) n = n.
+Proof.
+  induction n as [|c n IH]; intros H; [reflexivity|]. inversion H as [|? ? Hc Hn]; subst.
+  cbn [filter]. replace (c =? 0) with false by lia. cbn [negb]. rewrite (IH Hn). reflexivity.
+Qed.
+
+Theorem text_survives_xls_workbook : forall cp strs lay shs,
+  legal_workbook cp strs lay shs = true ->
+  exists res, wb_strings (workbook_stream cp strs lay shs) = Ok res /\
+    length res = length shs /\
+    forall k sh, nth_error shs k = Some sh ->
+      exists nm cells, nth_error res k = Some (nm, cells) /\
+        (forall n, Forall scalar n -> Forall (fun c => c <> 0) n ->
+                   sh_name sh = utf16_encode n -> nm = n) /\
+        forall s, Forall scalar s ->
+          (forall r c hb, In (CLabel r c hb (utf16_encode s)) (sh_cells sh) -> In (r, c, s) cells)
+          /\ (forall r c hb cuts, In (CFString r c hb (utf16_encode s) cuts) (sh_cells sh) ->
+                In (r, c, s) cells)
+          /\ (forall r c i, In (CSst r c i) (sh_cells sh) ->
+                nth_error strs (N.to_nat i) = Some (utf16_encode s) -> s <> [] ->
+                In (r, c, s) cells).
+Proof.
+  intros cp strs lay shs Hl. exists (wb_spec strs shs).
+  split; [apply wb_strings_ok; exact Hl|]. split; [unfold wb_spec; apply map_length|].
+  intros k sh Hk. unfold wb_spec. rewrite (map_nth_error _ _ _ Hk).
+  eexists. eexists. split; [reflexivity|]. split.
+  - intros n Hn Hz E. rewrite E, (decode_encode_text n Hn). apply filter_nonzero_id, Hz.
+  - intros s Hs. repeat split.
+    + intros r c hb Hin. apply in_flat_map. eexists. split; [exact Hin|].
+      cbn [cell_text]. rewrite (decode_encode_text s Hs). left. reflexivity.
+    + intros r c hb cuts Hin. apply in_flat_map. eexists. split; [exact Hin|].
+      cbn [cell_text]. rewrite (decode_encode_text s Hs). left. reflexivity.
+    + intros r c i Hin Hn Hne. apply in_flat_map. eexists. split; [exact Hin|].
+      cbn [cell_text]. rewrite (map_nth_error _ _ _ Hn), (decode_encode_text s Hs).
+      destruct s as [|x s']; [contradiction|]. cbn [is_nil]. left. reflexivity.
+Qed.
+
+(* non-vacuity: the text of [ex_text] as a sheet name, a LABEL, a continued formula result and a
+   shared string, in a workbook whose globals declare code page 1252 (what JExcelApi writes), 932,
+   a value no decoder table knows, or nothing *)
+Definition ex_wb_strs : list (list N) := [[72; 105]; utf16_encode ex_text].
+Definition ex_wb_lay : layout :=
+  mkLay 2 [mkSL false false [] (Some [(0, 1); (1, 2)]) None [5%nat];
+           mkSL true true [(2%nat, true)] None (Some [1; 2; 3]) [1%nat]].
+Definition ex_wb_sheets : list sheet_spec :=
+  [mkSheet true (utf16_encode ex_text)
+           [CLabel 0 0 true (utf16_encode ex_text);
+            CFString 1 0 true (utf16_encode ex_text) [(2%nat, true); (1%nat, false)];
+            CSst 2 0 1]].
+Lemma example_text_xls_workbook :
+  Forall (fun cp => legal_workbook cp ex_wb_strs ex_wb_lay ex_wb_sheets = true /\
+                    wb_strings (workbook_stream cp ex_wb_strs ex_wb_lay ex_wb_sheets) =
+                    Ok [(ex_text, [(0, 0, ex_text); (1, 0, ex_text); (2, 0, ex_text)])])
+         [Some 1252; Some 1200; Some 932; Some 65001; Some 54321; None].
+Proof. repeat constructor; vm_compute; reflexivity. Qed.
